@@ -1,9 +1,499 @@
-"""Live-association harness (C03b C04 C05 C08): filled in below."""
+"""Live-association harness (C03b C04 C05 C08): a real node with all its threads under the deterministic
+scheduler, driven by seeded random schedules with fault injection, with end-to-end monitors; executions are
+recorded at scheduler-step granularity for TLC trace validation (spec/Assoc.tla)."""
+import json
+import random
+
+from engine import vsched
+from . import node as nodemod
+
+
+class Scenario:
+    """an opened connection ready for traffic"""
+
+    def __init__(self, role, seed, watchdog=50, send_buffer=None):
+        nodemod.ensure_installed()
+        import bromelia.setup as bs
+        self.saved_buf = bs.SEND_BUFFER_MAXIMUM_SIZE
+        if send_buffer is not None:
+            bs.SEND_BUFFER_MAXIMUM_SIZE = send_buffer
+        self.bs = bs
+        self.n = nodemod.Node(role, seed=seed, watchdog=watchdog)
+        self.s = self.n.s
+        self.role = role
+
+    def close_scenario(self):
+        self.bs.SEND_BUFFER_MAXIMUM_SIZE = self.saved_buf
+        self.s.kill_all()
+
+    def open(self):
+        """run the capabilities exchange with randomly scheduled threads; returns True when Open"""
+        from bromelia.base import DiameterMessage
+        n = self.n
+        n.start()
+        if self.role == "client":
+            ok = self.run(until=lambda: self.complete_messages(n.sock.sent) >= 1, limit=4000)
+            if not ok:
+                return False
+            cer = DiameterMessage.load(bytes(n.sock.sent))[0]
+            del n.sock.sent[:]
+            cea = n.make("CEA", True, 1)
+            cea.header.hop_by_hop, cea.header.end_to_end = cer.header.hop_by_hop, cer.header.end_to_end
+            n.feed(cea.dump())
+        else:
+            n.feed(n.make("CER", True, 1).dump())
+        ok = self.run(until=lambda: n.d.is_open(), limit=6000)
+        if ok and self.role == "server":
+            self.run(until=lambda: self.complete_messages(n.sock.sent) >= 1, limit=4000)
+            del n.sock.sent[:]
+        return ok
+
+    @staticmethod
+    def complete_messages(buf):
+        b, i, k = bytes(buf), 0, 0
+        while len(b) - i >= 20:
+            ln = int.from_bytes(b[i + 1:i + 4], "big")
+            if ln < 20 or len(b) - i < ln:
+                break
+            i += ln
+            k += 1
+        return k
+
+    def run(self, until=None, limit=20000, timers=True):
+        """random schedule; long timers fire at quiescence; returns True when `until` became true"""
+        s = self.s
+        start = s.steps
+        while s.steps - start < limit:
+            if until and until():
+                return True
+            c = s.choose()
+            if c is None:
+                return bool(until and until())
+            t, fire = c
+            if fire and not timers:
+                return bool(until and until())
+            s.step(t, fire)
+        return bool(until and until())
+
+    def settle(self, limit=20000, timer_rounds=6):
+        """run until nothing but idle tickers and long timers remain, letting a few timers fire"""
+        s = self.s
+        start = s.steps
+        fired = 0
+        while s.steps - start < limit:
+            c = s.choose()
+            if c is None:
+                if all(t.done for t in s.threads):
+                    return "done"
+                return "deadlock: " + s.describe_blocked()
+            t, fire = c
+            if fire or t.idle:
+                fired += 1
+                if fired > timer_rounds:
+                    return "quiescent"
+            s.step(t, fire)
+        return "limit"
+
+
+def app_request(k, size=None, local=("client.network", "network")):
+    from bromelia.base import DiameterRequest
+    from bromelia.avps import SessionIdAVP, OriginHostAVP, OriginRealmAVP, DestinationRealmAVP, UserNameAVP, ClassAVP
+    r = DiameterRequest(command_code=316, application_id=16777251)
+    r.extend([SessionIdAVP(b"app;1;%d" % k), OriginHostAVP(local[0]), OriginRealmAVP(local[1]), DestinationRealmAVP("network"), UserNameAVP("u%d" % k)])
+    if size:
+        r.append(ClassAVP(bytes((k + i) % 251 for i in range(size))))
+    return r
+
+
+def split_frames(raw):
+    out, i = [], 0
+    while len(raw) - i >= 20:
+        ln = int.from_bytes(raw[i + 1:i + 4], "big")
+        if ln < 20 or len(raw) - i < ln:
+            break
+        out.append(raw[i:i + ln])
+        i += ln
+    return out, raw[i:]
+
+
+# ------------------------------------------------------------------------------------------- C05
+
+def run_send(seed, nthreads, per_thread, plan_kind, inbound, send_buffer, big=False):
+    """returns (verdict text or None, details)"""
+    rng = random.Random(seed)
+    sc = Scenario("client", seed, send_buffer=send_buffer)
+    try:
+        if not sc.open():
+            return "connection did not open", {"blocked": sc.s.describe_blocked()}
+        n = sc.n
+        msgs = {}
+        k = 0
+        for t in range(nthreads):
+            msgs[t] = []
+            for j in range(per_thread):
+                k += 1
+                size = rng.choice([None, 7, 40]) if not big else rng.choice([None, 300])
+                msgs[t].append(app_request(k, size))
+        if plan_kind == "partial":
+            n.sock.write_plan = [rng.choice([1, 3, 20, 21, 64, 150, 1000]) for _ in range(rng.randint(1, 6))]
+        elif plan_kind == "blocked":
+            n.sock.blocked_writes = rng.randint(1, 2)
+        use_list = rng.random() < 0.3
+
+        def submitter(t):
+            if use_list and len(msgs[t]) > 1:
+                n.d.send_messages(msgs[t])
+            else:
+                for m in msgs[t]:
+                    n.d.send_message(m)
+        subs = [sc.s.spawn(f"sender{t}", submitter, t) for t in range(nthreads)]
+        for i in range(inbound):
+            n.feed(n.make("REQ", True, 1).dump())
+        total = sum(len(m.dump()) for ms in msgs.values() for m in ms)
+        try:
+            sc.run(until=lambda: all(x.done for x in subs) and len(n.sock.sent) >= total, limit=30000)
+            end = sc.settle(limit=8000)
+        except vsched.Deadlock as e:
+            end = "deadlock: " + str(e)
+        except (vsched.StepLimit, vsched.StepHang) as e:
+            end = type(e).__name__ + ": " + str(e)
+        sent = bytes(n.sock.sent)
+        frames, rest = split_frames(sent)
+        want = {t: [m.dump() for m in ms] for t, ms in msgs.items()}
+        flat = [d for ds in want.values() for d in ds]
+        problems = []
+        dead = n.dead_threads()
+        if dead:
+            problems.append(f"threads died: {dead}")
+        if not all(x.done for x in subs):
+            problems.append("a submitter never returned: " + sc.s.describe_blocked())
+        if rest:
+            problems.append(f"{len(rest)} trailing bytes that are not a whole message (torn write)")
+        for f in frames:
+            if f not in flat:
+                problems.append(f"a {len(f)}-byte frame on the socket is not one of the submitted messages (torn / interleaved)")
+                break
+        for d in flat:
+            c = frames.count(d)
+            if c == 0:
+                problems.append(f"a submitted {len(d)}-byte message never reached the socket (lost); {len(sent)} of {total} bytes written")
+                break
+            if c > 1:
+                problems.append(f"a submitted message was written {c} times (duplicated)")
+                break
+        for t, ds in want.items():
+            pos = [frames.index(d) for d in ds if d in frames]
+            if pos != sorted(pos):
+                problems.append(f"messages of submitter {t} were written out of submission order")
+        if isinstance(end, str) and end.startswith(("deadlock", "Step")):
+            problems.append(end)
+        return ("; ".join(problems) if problems else None), {"end": end, "sent": len(sent), "expected": total, "frames": len(frames)}
+    finally:
+        sc.close_scenario()
+
+
+# ------------------------------------------------------------------------------------------- C04
+
+def segmentations(raw, rng, kind):
+    if kind == "whole":
+        return [raw]
+    if kind == "bytes":
+        return [raw[i:i + 1] for i in range(len(raw))]
+    if kind == "one":
+        c = rng.randrange(1, len(raw))
+        return [raw[:c], raw[c:]]
+    cuts = sorted(set(rng.randrange(1, len(raw)) for _ in range(rng.randint(1, 5))))
+    return [raw[a:b] for a, b in zip([0] + cuts, cuts + [len(raw)])]
+
+
+def run_recv(seed, nmsgs, seg_kind, consumers, mix_base=True, cut=None):
+    rng = random.Random(seed)
+    sc = Scenario("client", seed)
+    try:
+        if not sc.open():
+            return "connection did not open", {"blocked": sc.s.describe_blocked()}
+        n = sc.n
+        seq = []
+        for k in range(nmsgs):
+            if mix_base and rng.random() < 0.3:
+                seq.append(("DWR", n.make("DWR", True, 1 + k % 3)))
+            else:
+                kind = rng.choice(["REQ", "REQ", "ANS"])
+                m = n.make(kind, True, 1)
+                m.header.hop_by_hop = 0x1000 + k
+                m.header.end_to_end = 0x2000 + k
+                seq.append((kind, m))
+        raw = b"".join(m.dump() for _k, m in seq)
+        segs = [raw[:cut], raw[cut:]] if cut is not None else segmentations(raw, rng, seg_kind)
+        app = [m for k, m in seq if k != "DWR"]
+        got = {c: [] for c in range(consumers)}
+        share = [len(app) // consumers + (1 if c < len(app) % consumers else 0) for c in range(consumers)]
+
+        def consumer(c):
+            for _ in range(share[c]):
+                got[c].append(n.d.get_message())
+        cons = [sc.s.spawn(f"consumer{c}", consumer, c) for c in range(consumers)]
+        pending = list(segs)
+
+        def feeder():
+            # the network delivers the segments one by one, at arbitrary moments
+            while pending:
+                n.feed(pending.pop(0))
+                vsched.SCHED.yield_op(("op", None, "net"), write=True)
+        sc.s.spawn("net", feeder)
+        ndwr = sum(1 for k, _m in seq if k == "DWR")
+        try:
+            sc.run(until=lambda: all(c.done for c in cons) and sc.complete_messages(n.sock.sent) >= ndwr and not pending, limit=60000)
+            end = sc.settle(limit=6000)
+        except vsched.Deadlock as e:
+            end = "deadlock: " + str(e)
+        except (vsched.StepLimit, vsched.StepHang) as e:
+            end = type(e).__name__ + ": " + str(e)
+        problems = []
+        dead = n.dead_threads()
+        if dead:
+            problems.append(f"threads died: {dead}")
+        delivered = [m for c in range(consumers) for m in got[c]]
+        if consumers == 1:
+            if [m.dump() if m is not None else None for m in delivered] != [m.dump() for m in app]:
+                problems.append(f"delivered {len(delivered)} of {len(app)} application messages "
+                                f"({'in order' if all(d is not None and d.dump() in [a.dump() for a in app] for d in delivered) else 'with foreign/garbled content'})")
+        else:
+            dd = sorted(m.dump() for m in delivered if m is not None)
+            if dd != sorted(m.dump() for m in app):
+                problems.append(f"{consumers} consumers received {len(dd)} messages, {len(app)} sent (lost or duplicated)")
+            for c in range(consumers):
+                idx = [next((i for i, a in enumerate(app) if m is not None and a.dump() == m.dump()), -1) for m in got[c]]
+                if idx != sorted(idx):
+                    problems.append(f"consumer {c} received messages out of order")
+        if not all(c.done for c in cons):
+            problems.append("a consumer is still waiting although every message was sent: " + sc.s.describe_blocked()[:300])
+        # base messages consumed in order: the DWAs on the socket echo the DWR identifiers in the order sent
+        from bromelia.base import DiameterMessage
+        try:
+            dwas = [m for m in DiameterMessage.load(bytes(n.sock.sent)) if n.classify(m) == "DWA"]
+        except BaseException:
+            dwas = []
+        want_ids = [(m.header.hop_by_hop, m.header.end_to_end) for k, m in seq if k == "DWR"]
+        if [(m.header.hop_by_hop, m.header.end_to_end) for m in dwas] != want_ids:
+            problems.append(f"{len(dwas)} DWA for {len(want_ids)} DWR, or not in the order sent")
+        return ("; ".join(problems) if problems else None), {"end": end, "segments": len(segs), "messages": nmsgs}
+    finally:
+        sc.close_scenario()
+
+
+# ------------------------------------------------------------------------------------------- C08
+
+def run_life(seed, role, cause, point, blocked_consumer, restart=True):
+    rng = random.Random(seed)
+    sc = Scenario(role, seed)
+    n = sc.n
+    try:
+        problems = []
+        consumer_result = []
+        if point == "refused":
+            n.start(refused=True)
+        else:
+            if point in ("open", "open-inbound", "open-outbound", "closing"):
+                if not sc.open():
+                    return "connection did not open", {"blocked": sc.s.describe_blocked()}
+            else:
+                n.start()
+                if point == "wait-cea" and role == "client":
+                    sc.run(until=lambda: n.state() == "WaitICEA" and sc.complete_messages(n.sock.sent) >= 1, limit=4000)
+        cons = None
+        if blocked_consumer and n.assoc is not None:
+            cons = sc.s.spawn("consumer", lambda: consumer_result.append(n.d.get_message()))
+            sc.run(until=lambda: cons.pending is not None and cons.pending[0] == "wait", limit=3000)
+        if point == "open-inbound":
+            n.feed(n.make("REQ", True, 1).dump() + n.make("REQ", True, 2).dump())
+        if point == "open-outbound":
+            sc.s.spawn("sender", lambda: [n.d.send_message(app_request(i)) for i in range(3)])
+        if point == "closing":
+            sc.s.spawn("closer0", n.d.close)
+            sc.run(until=lambda: n.state() == "Closing", limit=4000)
+        # a few random steps so that the fault lands at an arbitrary point
+        sc.run(limit=rng.randint(0, 60), timers=False)
+        # the termination cause
+        if cause == "local" and n.state() not in ("Closed",):
+            def closer():
+                try:
+                    n.d.close()
+                except BaseException as e:
+                    if type(e).__name__ != "DiameterApplicationError":
+                        raise
+            sc.s.spawn("closer", closer)
+            # the peer answers the DPR
+            sc.run(until=lambda: any(n.classify(m) == "DPR" for m in frames_of(n)), limit=8000)
+            dprs = [m for m in frames_of(n) if n.classify(m) == "DPR"]
+            if dprs:
+                dpa = n.make("DPA", True, 1)
+                dpa.header.hop_by_hop, dpa.header.end_to_end = dprs[0].header.hop_by_hop, dprs[0].header.end_to_end
+                n.feed(dpa.dump())
+        elif cause == "dpr":
+            n.feed(n.make("DPR", True, 2).dump())
+        elif cause == "eof":
+            n.peer_close()
+        elif cause == "refused":
+            pass
+        try:
+            sc.run(until=lambda: n.state() == "Closed" and all(t.done for t in sc.s.threads if not t.name.startswith("consumer")), limit=40000)
+            end = sc.settle(limit=6000, timer_rounds=12)
+        except vsched.Deadlock as e:
+            end = "deadlock: " + str(e)
+        except (vsched.StepLimit, vsched.StepHang) as e:
+            end = type(e).__name__ + ": " + str(e)
+        if isinstance(end, str) and end.startswith(("deadlock", "Step")):
+            problems.append(end[:400])
+        if n.state() != "Closed":
+            problems.append(f"state is {n.state()}, not Closed")
+        alive = [t.name for t in sc.s.threads if not t.done]
+        if alive:
+            problems.append(f"threads still alive: {alive} ({sc.s.describe_blocked()[:300]})")
+        dead = n.dead_threads()
+        if not n.sock.closed or (n.listen is not None and not n.listen.closed):
+            problems.append("socket not closed")
+        if cons is not None and not cons.done:
+            problems.append("an application thread blocked in get_message() did not return")
+        if restart and not problems:
+            try:
+                n.start()
+                sc.run(until=lambda: n.state() != "Closed" or n.starter.done, limit=4000)
+                if n.starter.exc is not None:
+                    problems.append(f"second start() raised {type(n.starter.exc).__name__}: {n.starter.exc}")
+            except BaseException as e:
+                problems.append(f"second start() failed: {type(e).__name__}: {e}")
+        return ("; ".join(problems) if problems else None), {"end": end, "threads_ended_by_exception": dead}
+    finally:
+        sc.close_scenario()
+
+
+def frames_of(n):
+    from bromelia.base import DiameterMessage
+    fr, _rest = split_frames(bytes(n.sock.sent))
+    out = []
+    for f in fr:
+        try:
+            out += DiameterMessage.load(f)
+        except BaseException:
+            pass
+    return out
+
+
+# ------------------------------------------------------------------------------------------- C03b
+
+def garbage_segments(n, rng):
+    good = n.make("REQ", True, 1).dump()
+    u32x5 = bytes.fromhex("0000010c4000000d0000000001000000")
+    bad_enum = bytes.fromhex("00000115400000") + b"\x0c" + b"\x00\x00\x00\x63"        # Auth-Session-State = 99
+    def wrap(body, cmd=316, app=16777251, flags=0x80):
+        return bytes([1]) + (20 + len(body)).to_bytes(3, "big") + bytes([flags]) + cmd.to_bytes(3, "big") + app.to_bytes(4, "big") + bytes(8) + body
+    return {
+        "length0": bytes([1, 0, 0, 0]) + bytes(16),
+        "length19": bytes([1, 0, 0, 19]) + bytes(16),
+        "short-header": b"\x01\x00\x00",
+        "truncated": good[:37],
+        "avp-length-too-big": good[:25] + b"\xff\xff\xff" + good[28:],
+        "avp-length-zero": good[:25] + b"\x00\x00\x00" + good[28:],
+        "u32-five-bytes": wrap(u32x5),
+        "unknown-enumerator": wrap(bad_enum),
+        "misaddressed": n.make("MIS", True, 1).dump(),
+        "bad-utf8-uri": wrap((292).to_bytes(4, "big") + b"\x40" + (14).to_bytes(3, "big") + b"aaa:\xff\xfe\0\0"),
+        "random": bytes(rng.getrandbits(8) for _ in range(rng.choice([1, 19, 20, 33, 64]))),
+        "garbage-then-good": bytes([1, 0, 0, 24, 0x80, 0, 1, 60]) + bytes(12) + b"\xde\xad\xbe\xef" + good,
+    }
+
+
+def run_garbage(seed, role, state, kind):
+    rng = random.Random(seed)
+    sc = Scenario(role, seed)
+    n = sc.n
+    try:
+        if state in ("open", "closing"):
+            if not sc.open():
+                return "connection did not open", {}
+        else:
+            n.start()
+            if role == "client":
+                sc.run(until=lambda: n.state() == "WaitICEA" and sc.complete_messages(n.sock.sent) >= 1, limit=4000)
+        if state == "closing":
+            sc.s.spawn("closer0", n.d.close)
+            sc.run(until=lambda: n.state() == "Closing", limit=4000)
+        seg = garbage_segments(n, rng)[kind]
+        n.feed(seg)
+        try:
+            sc.run(limit=3000, timers=False)
+            end = sc.settle(limit=4000)
+        except vsched.Deadlock as e:
+            end = "deadlock: " + str(e)
+        except (vsched.StepLimit, vsched.StepHang) as e:
+            end = type(e).__name__ + ": " + str(e)
+        problems = []
+        if isinstance(end, str) and end.startswith("Step"):
+            problems.append(end[:300])
+        dead = n.dead_threads()
+        a = n.assoc
+        held = []
+        if a is not None:
+            for nm, l in (("association lock", a.lock), ("delivery lock", a.postprocess_recv_messages_lock)):
+                if l.held and l.owner is not None and l.owner.done:
+                    held.append(f"{nm} held by finished thread {l.owner.name}")
+        if held:
+            problems.append("; ".join(held))
+        closed = n.state() == "Closed"
+        if dead and not closed:
+            problems.append(f"worker thread(s) died and the connection was not closed: {dead}")
+        # the local API still returns
+        api = []
+
+        def use_api():
+            if n.state() == "Open":
+                n.d.send_message(app_request(77))
+                api.append("send")
+            if n.state() not in ("Closed",):
+                n.d.close()
+                api.append("close")
+            else:
+                api.append("already closed")
+        t = sc.s.spawn("api", use_api)
+        try:
+            sc.run(until=lambda: t.done, limit=8000)
+        except (vsched.Deadlock, vsched.StepLimit, vsched.StepHang) as e:
+            problems.append(f"local API call did not return: {type(e).__name__}: {str(e)[:200]}")
+        if not t.done:
+            problems.append("local API call (send_message / close) did not return: " + sc.s.describe_blocked()[:300])
+        elif t.exc is not None and type(t.exc).__module__ != "bromelia.exceptions":
+            problems.append(f"local API call raised {type(t.exc).__name__}: {t.exc}")
+        return ("; ".join(problems) if problems else None), {"end": end, "api": api}
+    finally:
+        sc.close_scenario()
 
 
 def check_garbage(rep):
-    rep.notes["C03b"] = "pending"
+    rng = random.Random(rep.seed * 7919 + 33)
+    kinds = ["length0", "length19", "short-header", "truncated", "avp-length-too-big", "avp-length-zero", "u32-five-bytes", "unknown-enumerator",
+             "misaddressed", "bad-utf8-uri", "random", "garbage-then-good"]
+    cases = [("client", "open"), ("server", "open"), ("client", "wait-cea"), ("server", "before-cer"), ("client", "closing")]
+    reps = 1 if rep.tier == "quick" else 10
+    n = 0
+    for role, state in cases:
+        for kind in kinds:
+            for r in range(reps):
+                seed = rng.getrandbits(30)
+                verdict, info = run_garbage(seed, role, state, kind)
+                n += 1
+                rep.case(("garbage", role, state, kind, r))
+                if verdict:
+                    rep.violation(f"malformed segment '{kind}' arriving at a {role} in state {state}: {verdict}",
+                                  {"kind": "garbage", "seed": seed, "role": role, "state": state, "segment": kind})
+                if len(rep.violations) >= 20:
+                    return
+    rep.notes["live_injections"] = n
+    rep.traces_validated += n
 
 
 def replay_garbage(rep, r):
-    pass
+    verdict, info = run_garbage(r["seed"], r["role"], r["state"], r["segment"])
+    if verdict:
+        rep.violation(f"malformed segment '{r['segment']}' at a {r['role']} in state {r['state']}: {verdict}", r)
+    rep.states, rep.transitions = 1, 1
